@@ -80,7 +80,7 @@ def run(ctx):
     ctx.rule("R19.1i", "proto -> tetris: the same correspondences in the other direction")
     ctx.rule("R19.2", "exported cells derive from the dependency orderer's result")
     from rules import C17 as c17
-    c17.run(ctx.sub("R19.2o", "the gridded-cell orderer the exporter relies on satisfies the orderer rules of C17"), only=lambda f: f.id.startswith(("layout21tetris::library::", "layout21utils::")), floors=False)
+    c17.run(ctx.sub("R19.2o", "the gridded-cell orderer the exporter relies on satisfies the orderer rules of C17"), only=lambda f: f.id.startswith(("layout21tetris::library::", "layout21utils::")), floors=False, clients=lambda g: g.id.startswith("layout21tetris::conv::proto::"))
     ctx.rule("R19.3", "a malformed message (missing outline / location / reference, undefined cell, relative or external reference) reaches an error return: the importer contains no reachable panic")
     for rid, table, side in (("R19.1e", EXPORT, "export"), ("R19.1i", IMPORT, "import")):
         n = 0
